@@ -109,18 +109,74 @@ def install(I, poll_budget=1):
         return outs
 
     def poll_oneshot(I, st, o, fr):
-        res = I.shared_op(st, o, 'poll', objects.oneshot_poll(), {'ready_val': 'bool', 'ready_closed': 'bool', 'val': objects.ID_BITS}, label='%s.poll' % o.oid)
+        """tokio oneshot::Receiver as a future: Ready(Ok(v)) once; Ready(Err) if the sender is gone; polling again after it completed panics
+        ("called after complete")"""
+        cur = st.objs.get(o.oid) if not I.event_mode or o.oid in st.objs else None
+        outs = []
+        if cur is not None:
+            taken = cur['st'] == 2
+            br = branch(I, st, taken)
+        else:
+            br = [(st, False)]
+        for s1, is_taken in br:
+            if is_taken:
+                outs.extend(panic(I, s1, 'oneshot receiver polled after completion'))
+                continue
+            res = I.shared_op(s1, o, 'poll', objects.oneshot_poll(), {'ready_val': 'bool', 'ready_closed': 'bool', 'val': objects.ID_BITS}, label='%s.poll' % o.oid)
+            for s2, has in branch(I, s1, res['ready_val']):
+                if has:
+                    s2.emit('RECV', o.oid, res['val'])
+                    for s3, v in chan_value(I, s2, o, res['val']):
+                        outs.append(Outcome(s3, 'ret', ready(ok(v))))
+                else:
+                    for s3, closed in branch(I, s2, res['ready_closed']):
+                        if closed:
+                            # the Err completion also completes the future
+                            ob = dict(s3.objs[o.oid]) if o.oid in s3.objs else None
+                            if ob is not None:
+                                ob['st'] = z3.BitVecVal(2, 2)
+                                s3.objs[o.oid] = ob
+                        outs.append(Outcome(s3, 'ret', ready(err(Agg('RecvError', ()))) if closed else PENDING))
+        return outs
+    I.poll_oneshot = poll_oneshot
+
+    @M(r'UnboundedReceiver::<.*>::close$', 'mpsc::UnboundedReceiver::close')
+    def m_rx_close(I, st, f, args, fr):
+        o = obj_at(I, st, args[0])
+        name = I.objinfo.get(o.oid, {}).get('name', str(o.oid))
+        I.shared_op(st, o, 'close', objects.chan_close(), {}, label='%s.close' % name)
+        return I.ret(st, UNIT)
+
+    @M(r'UnboundedReceiver::<.*>::try_recv$', 'mpsc::UnboundedReceiver::try_recv')
+    def m_rx_try_recv(I, st, f, args, fr):
+        o = obj_at(I, st, args[0])
+        name = I.objinfo.get(o.oid, {}).get('name', str(o.oid))
+        res = I.shared_op(st, o, 'try_recv', objects.chan_recv(), {'has': 'bool', 'val': objects.ID_BITS, 'closed': 'bool'}, label='%s.try_recv' % name)
+        outs = []
+        for s2, has in branch(I, st, res['has']):
+            if has:
+                s2.emit('FLUSHED', o.oid, res['val'])
+                outs.append(Outcome(s2, 'ret', ok(Opaque('received', info=res['val']))))
+            else:
+                outs.append(Outcome(s2, 'ret', err(Enum('TryRecvError', 'Empty', 0, ()))))
+        return outs
+
+    @M(r'oneshot::Receiver::<.*>::close$', 'oneshot::Receiver::close')
+    def m_os_close(I, st, f, args, fr):
+        o = obj_at(I, st, args[0])
+        I.shared_op(st, o, 'close', objects.oneshot_close(), {}, label='%s.close' % o.oid)
+        return I.ret(st, UNIT)
+
+    @M(r'oneshot::Receiver::<.*>::try_recv$', 'oneshot::Receiver::try_recv')
+    def m_os_try_recv(I, st, f, args, fr):
+        o = obj_at(I, st, args[0])
+        res = I.shared_op(st, o, 'poll', objects.oneshot_poll(), {'ready_val': 'bool', 'ready_closed': 'bool', 'val': objects.ID_BITS}, label='%s.try_recv' % o.oid)
         outs = []
         for s2, has in branch(I, st, res['ready_val']):
             if has:
-                s2.emit('RECV', o.oid, res['val'])
-                for s3, v in chan_value(I, s2, o, res['val']):
-                    outs.append(Outcome(s3, 'ret', ready(ok(v))))
-            else:
-                for s3, closed in branch(I, s2, res['ready_closed']):
-                    outs.append(Outcome(s3, 'ret', ready(err(Agg('RecvError', ()))) if closed else PENDING))
+                s2.emit('FLUSHED', o.oid, res['val'])
+            outs.append(Outcome(s2, 'ret', ok(Opaque('received', info=res['val'])) if has else err(Enum('TryRecvError', 'Empty', 0, ()))))
         return outs
-    I.poll_oneshot = poll_oneshot
 
     # ------------------------------------------------------------------ user futures
     def poll_user(I, st, fut, cell, path, fr):
